@@ -1297,6 +1297,38 @@ ASSUMPTIONS = [
     "msgspec copies a mutable field default per instance; Python calls "
     "__init__ on whatever __new__ returns",
 ]
+# rules/c04_set_args.py (R4.10 / R4.10w)
+EXPLANATION += (
+    "  R4.10 (rules/c04_set_args.py; quick: callers in the output-path "
+    "modules, R4.10w thorough: the rest of the package) closes the "
+    "interprocedural gap of R4.6: a function whose result follows the "
+    "iteration order of a parameter must not receive a definite set for it "
+    "from any caller, or must canonicalise first.  Every call that passes a "
+    "definite set (same inference as R4.6; `f(sorted(S))` is kept as an "
+    "instance that holds) and that R4.6 cannot resolve inside the module is "
+    "resolved by name - `alias.f(..)` / `alias.Cls(..)` through the imports "
+    "to the function / the class's __init__ of that package module, "
+    "`Cls(..)` of a same-module class to its __init__, `<anything>.m(..)` to "
+    "every method called m of every class of the package - and the receiving "
+    "parameter of each candidate is followed (reaching definitions of its "
+    "entry value, further module-local calls) to order-observing consumers "
+    "that are not provably order-insensitive (so `typs = set(typs)` / "
+    "`sorted(typs)` first is fine, `list(dict.fromkeys(typs))`, a for-loop "
+    "appending to a list, deque(..), join are walks).  A site whose callee "
+    "walks is a violation unless the (callee, parameter, walk kinds) triple "
+    "is in the frozen triage table of the module (one entry today: "
+    "WrongKeywordArgs.extra_keywords, printed sorted / used by name).  Blind "
+    "spots: receivers are not typed, so method names that also exist on the "
+    "builtin containers / str, dunder methods (super().__init__) and calls "
+    "through *args/**kwargs, callbacks or container elements are not "
+    "followed; a set stored in an attribute / returned and walked by another "
+    "module is not followed; the callee is followed only inside its own "
+    "module (depth 3).")
+ASSUMPTIONS += [
+    "R4.10: a method call on an untyped receiver may reach any method of "
+    "that name defined in a class of the package (tests excluded); names of "
+    "builtin container / str methods denote those builtins",
+]
 
 IO = "pytype/io.py"
 PYTD_UTILS = "pytype/pytd/pytd_utils.py"
